@@ -270,7 +270,7 @@ func generate(rng *rand.Rand, k Knobs, profile string) *Prog {
 		}
 		for e := 0; e < ne; e++ {
 			r := rng.Float64()
-			canCall := !t.IgnoreError && i+1 < n && t.XVia != "env"
+			canCall := i+1 < n && t.XVia != "env"
 			switch {
 			case t.XVia == "sub":
 				j := -1
@@ -504,7 +504,38 @@ func skeleton(rng *rand.Rand, profile string) *Prog {
 	if profile == "dedup" && rng.Intn(3) == 0 {
 		which = 4
 	}
+	if (profile == "fail" || profile == "dedup") && rng.Intn(4) == 0 {
+		which = 5
+	}
 	switch which {
+	case 5: // a failing shared task whose failure k callers tolerate (task-level ignore_error) before one that must fail
+		k := 2 + rng.Intn(3)
+		mk(k + 3)
+		p.Tasks[1].Run, p.Tasks[1].UsesX = mode, mode == WhenChanged
+		p.Tasks[1].Entries = append(probes(rng.Intn(2)), &Entry{Kind: Probe, Exit: code})
+		strict := k + 2
+		if viaCall {
+			p.Tasks[strict].Entries = append([]*Entry{{Kind: Call, Ref: sref(1)}}, probes(1)...)
+		} else {
+			p.Tasks[strict].Deps = []*Ref{sref(1)}
+			p.Tasks[strict].Entries = probes(1)
+		}
+		par := rng.Intn(2) == 0
+		for j := 2; j < strict; j++ {
+			p.Tasks[j].IgnoreError = true
+			p.Tasks[j].Entries = append([]*Entry{{Kind: Call, Ref: sref(1)}}, probes(1)...)
+			if par {
+				p.Tasks[0].Deps = append(p.Tasks[0].Deps, ref(j))
+			} else {
+				p.Tasks[0].Entries = append(p.Tasks[0].Entries, &Entry{Kind: Call, Ref: ref(j)})
+			}
+		}
+		p.Tasks[0].Entries = append(p.Tasks[0].Entries, &Entry{Kind: Call, Ref: ref(strict)})
+		p.Tasks[0].Entries = append(p.Tasks[0].Entries, probes(1)...)
+		p.Roots = []*Ref{ref(0)}
+		p.Conc = []int{0, 0, 1, 2}[rng.Intn(4)]
+		p.Yes = true
+		return p
 	case 4: // a when_changed task whose variables reach only its env (or only its sub-call), called with swapped / doubled values
 		if rng.Intn(2) == 0 {
 			// X reaches the callee's commands only through the vars of its own sub-call
